@@ -22,6 +22,7 @@ import (
 	"math/big"
 	"net"
 	"os"
+	"strings"
 	"sync"
 	"time"
 
@@ -57,8 +58,9 @@ type packet struct {
 }
 
 type memNet struct {
-	mu  sync.Mutex
-	eps map[string]*endpoint
+	mu    sync.Mutex
+	eps   map[string]*endpoint
+	delay time.Duration // one-way packet delay (0: immediate)
 }
 
 type endpoint struct {
@@ -129,10 +131,18 @@ func (e *endpoint) WriteTo(p []byte, addr net.Addr) (int, error) {
 	dst := e.n.eps[addr.String()]
 	e.n.mu.Unlock()
 	if dst != nil {
-		select {
-		case dst.in <- packet{data: append([]byte{}, p...), from: e.addr}:
-		case <-dst.closed:
-		default: // queue full: drop like UDP
+		pk := packet{data: append([]byte{}, p...), from: e.addr}
+		deliver := func() {
+			select {
+			case dst.in <- pk:
+			case <-dst.closed:
+			default: // queue full: drop like UDP
+			}
+		}
+		if e.n.delay > 0 {
+			time.AfterFunc(e.n.delay, deliver)
+		} else {
+			deliver()
 		}
 	}
 	return len(p), nil
@@ -199,6 +209,9 @@ type qnode struct {
 	ep     *endpoint
 }
 
+// parseAddr canonicalises dial addresses: "mem://addrS" and "addrS" name the same endpoint (like localhost:1 and 127.0.0.1:1).
+func parseAddr(a string) (net.Addr, error) { return memAddr(strings.TrimPrefix(a, "mem://")), nil }
+
 var fastOpts = &pconn.Opts{Quic: &transport_quic.Opts{MaxIdleTimeoutDur: "400ms"}}
 
 func startNode(n *memNet, le *logrus.Entry, keyName, addr string) *qnode {
@@ -206,7 +219,7 @@ func startNode(n *memNet, le *logrus.Entry, keyName, addr string) *qnode {
 	k := vio.Key("quicnet/" + keyName)
 	h := &recHandler{}
 	ep := n.bind(addr)
-	t, err := pconn.NewTransport(ctx, le, k, h, fastOpts, 1, ep, func(a string) (net.Addr, error) { return memAddr(a), nil }, nil)
+	t, err := pconn.NewTransport(ctx, le, k, h, fastOpts, 1, ep, parseAddr, nil)
 	if err != nil {
 		vio.Fatal("pconn: %v", err)
 	}
@@ -268,6 +281,19 @@ func buildCert(ext string, selfsigned bool, K, M crypto.PrivKey) []byte {
 		exts = []pkix.Extension{{Id: good.Id, Value: v}}
 	case "otherOidOnly":
 		exts = []pkix.Extension{{Id: asn1.ObjectIdentifier{1, 3, 6, 1, 4, 1, 99999, 7}, Value: good.Value}}
+	case "replayedExt":
+		// the victim's genuine certificate (another TLS key) is seen and accepted by this process first ...
+		e, _ := p2ptls.GenerateSignedExtension(K, otherKey.Public())
+		vt := &x509.Certificate{SerialNumber: big.NewInt(7), NotBefore: time.Now().Add(-time.Hour), NotAfter: time.Now().Add(time.Hour), Subject: pkix.Name{SerialNumber: "2"}, ExtraExtensions: []pkix.Extension{e}}
+		if vder, err := x509.CreateCertificate(rand.Reader, vt, vt, otherKey.Public(), otherKey); err == nil {
+			if vc, err := x509.ParseCertificate(vder); err == nil {
+				if _, err := p2ptls.PubKeyFromCertChain([]*x509.Certificate{vc}); err != nil {
+					vio.Fatal("genuine certificate refused: %v", err)
+				}
+			}
+		}
+		// ... then its extension is copied verbatim into the attacker's certificate
+		exts = []pkix.Extension{e}
 	}
 	tmpl.ExtraExtensions = exts
 	signer := certKey
@@ -468,7 +494,7 @@ func runHist(le *logrus.Entry, idx int, hist []string, emit func(map[string]any)
 	th := &recHandler{}
 	_ = th
 	ctor := func(ctx context.Context, le *logrus.Entry, pkey crypto.PrivKey, h transport.TransportHandler) (transport.Transport, error) {
-		t, err := pconn.NewTransport(ctx, le, pkey, h, fastOpts, 9, ep, func(a string) (net.Addr, error) { return memAddr(a), nil }, nil)
+		t, err := pconn.NewTransport(ctx, le, pkey, h, fastOpts, 9, ep, parseAddr, nil)
 		if err != nil {
 			return nil, err
 		}
@@ -513,7 +539,7 @@ func runHist(le *logrus.Entry, idx int, hist []string, emit func(map[string]any)
 		evs = append(evs, map[string]any{"e": "owner", "v": o})
 		if pi == 0 {
 			go func() {
-				l, err := ctrl.DialPeerAddr(ctx, xid, &dialer.DialerOpts{Address: "addrS", Backoff: &backoff.Backoff{BackoffKind: backoff.BackoffKind_BackoffKind_CONSTANT, Constant: &backoff.Constant{Interval: 20}}})
+				l, err := ctrl.DialPeerAddr(ctx, xid, &dialer.DialerOpts{Address: "mem://addrS", Backoff: &backoff.Backoff{BackoffKind: backoff.BackoffKind_BackoffKind_CONSTANT, Constant: &backoff.Constant{Interval: 20}}})
 				ch <- dres{l, err}
 			}()
 			evs = append(evs, map[string]any{"e": "dial"})
@@ -596,6 +622,59 @@ func runTpt(le *logrus.Entry, idx int, hist []string, emit func(map[string]any))
 	}
 }
 
+// runPair: two overlapping dial requests for the same address with different target peers share the transport's dialer
+// (LinkDial.tla, Enter/Attempt with two joined requests): only the request whose target answered may succeed.
+func runPair(le *logrus.Entry, idx int, owner string, first string, emit func(map[string]any)) {
+	n := &memNet{eps: map[string]*endpoint{}, delay: 3 * time.Millisecond}
+	a := startNode(n, le, "A", "addrA")
+	defer a.stop()
+	ids := map[string]peer.ID{"X": vio.PeerID("quicnet/X"), "Y": vio.PeerID("quicnet/Y")}
+	name := func(id peer.ID) string {
+		for k, v := range ids {
+			if v == id {
+				return k
+			}
+		}
+		return "?"
+	}
+	o := startNode(n, le, owner, "addrS")
+	defer o.stop()
+	emit(map[string]any{"e": "reset", "i": idx, "hist": []string{owner}, "level": "pair"})
+	emit(map[string]any{"e": "owner", "v": owner})
+	emit(map[string]any{"e": "dial"})
+	second := "Y"
+	if first == "Y" {
+		second = "X"
+	}
+	type res struct {
+		target string
+		l      link.Link
+		err    error
+	}
+	ch := make(chan res, 2)
+	dial := func(t string) {
+		ctx, cancel := context.WithTimeout(context.Background(), 2*time.Second)
+		defer cancel()
+		l, _, err := a.tpt.DialPeer(ctx, ids[t], "addrS")
+		ch <- res{t, l, err}
+	}
+	go dial(first)
+	time.Sleep(4 * time.Millisecond) // the first request's dialer is in its handshake (>= 3 round trips of 6 ms)
+	go dial(second)
+	for k := 0; k < 2; k++ {
+		r := <-ch
+		ev := map[string]any{"e": "ret", "target": r.target, "ok": r.err == nil && r.l != nil, "remote": "", "err": ""}
+		if r.l != nil {
+			ev["remote"] = name(r.l.GetRemotePeer())
+		}
+		if r.err != nil {
+			ev["err"] = r.err.Error()
+		}
+		emit(ev)
+	}
+	emit(map[string]any{"e": "end", "returned": true})
+}
+
 func runDial(cases string, out *vio.Out, le *logrus.Entry) {
 	var hists [][]string
 	for _, raw := range vio.ReadCases(cases) {
@@ -635,6 +714,19 @@ func runDial(cases string, out *vio.Out, le *logrus.Entry) {
 			out.Emit(e)
 		}
 	}
+	k := len(hists)
+	reps := 3
+	if vio.Tier() == "thorough" {
+		reps = 20
+	}
+	for rep := 0; rep < reps; rep++ {
+		for _, owner := range []string{"X", "Y"} {
+			for _, first := range []string{"X", "Y"} {
+				runPair(le, k, owner, first, func(e map[string]any) { out.Emit(e) })
+				k++
+			}
+		}
+	}
 }
 
 // runLinks: histories of QuicLinks.tla against a real pconn transport + real transport controller: remote endpoints
@@ -670,7 +762,7 @@ func runLinks(cases string, out *vio.Out, le *logrus.Entry) {
 			localID, _ := peer.IDFromPrivateKey(lk)
 			ep := n.bind("addrCtl")
 			ctor := func(ctx context.Context, le *logrus.Entry, pkey crypto.PrivKey, h transport.TransportHandler) (transport.Transport, error) {
-				t, err := pconn.NewTransport(ctx, le, pkey, h, fastOpts, 9, ep, func(a string) (net.Addr, error) { return memAddr(a), nil }, nil)
+				t, err := pconn.NewTransport(ctx, le, pkey, h, fastOpts, 9, ep, parseAddr, nil)
 				if err != nil {
 					return nil, err
 				}
